@@ -124,3 +124,73 @@ pub fn run_all(jobs: &[(u32, &str)], n: usize, timeout: Duration) -> Vec<Outcome
     });
     Arc::try_unwrap(results).ok().unwrap().into_inner().unwrap().into_iter().map(|o| o.unwrap()).collect()
 }
+
+/// (class, detail, signature) of every failure of one answer; the key of a failure is class+signature
+pub fn fails_of(v: &Value) -> Vec<(String, String, String)> {
+    v["fails"]
+        .as_array()
+        .map(|a| {
+            a.iter()
+                .map(|f| {
+                    (
+                        f["class"].as_str().unwrap_or("?").to_string(),
+                        f["detail"].as_str().unwrap_or("").to_string(),
+                        f["sig"].as_str().unwrap_or("").to_string(),
+                    )
+                })
+                .collect()
+        })
+        .unwrap_or_default()
+}
+
+pub fn classes_of(o: &Outcome) -> Vec<(String, String, String)> {
+    match o {
+        Outcome::Answer(v) => fails_of(v),
+        Outcome::Hang(t) => vec![("hang".into(), format!("no answer after {t:.0}s (twice)"), String::new())],
+        Outcome::Died(s) => vec![("died".into(), format!("worker process died: {s}"), String::new())],
+    }
+}
+
+/// Delta debugging (ddmin over characters): smallest text found on which `class` still occurs.
+pub fn minimise(p: &mut Proc, flags: u32, text: &str, class: &str, sig: &str, timeout: Duration) -> (String, usize) {
+    let t0 = Instant::now();
+    let mut tests = 0usize;
+    let mut cur: Vec<char> = text.chars().collect();
+    let mut n = 2usize;
+    let mut test = |cand: &[char], tests: &mut usize| -> bool {
+        *tests += 1;
+        let s: String = cand.iter().collect();
+        let o = p.request(flags, &s, timeout);
+        classes_of(&o).iter().any(|(c, _, g)| c == class && g == sig)
+    };
+    while cur.len() >= 2 && tests < 400 && t0.elapsed() < Duration::from_secs(90) {
+        let len = cur.len();
+        let chunk = len.div_ceil(n);
+        let mut reduced = false;
+        for i in 0..n {
+            let (a, b) = (i * chunk, ((i + 1) * chunk).min(len));
+            if a >= b {
+                continue;
+            }
+            // complement of chunk i
+            let cand: Vec<char> = cur[..a].iter().chain(cur[b..].iter()).copied().collect();
+            if test(&cand, &mut tests) {
+                cur = cand;
+                n = (n - 1).max(2);
+                reduced = true;
+                break;
+            }
+            if tests >= 400 || t0.elapsed() >= Duration::from_secs(90) {
+                break;
+            }
+        }
+        if !reduced {
+            if n >= len {
+                break;
+            }
+            n = (2 * n).min(len);
+        }
+    }
+    (cur.into_iter().collect(), tests)
+}
+
